@@ -755,6 +755,22 @@ mut("ty-new-snapshot-source", "break", ["C02"], "a new public method hands out a
 """)], ["TY-SIG"])
 mut("rec-collect-reentrant", "break", ["C07"], "unpin collects even while a collection is running (flag not tested)",
     [ed(I, "if guard_count == 1 && !self.collecting.get() && !THREAD_COLLECTING.with(Cell::get) {", "if guard_count == 1 {")], ["REC-COLLECT-REENTRY"])
+mut("ok-finalize-saves-thread-flag", "benign", [], "finalize holds the thread-wide flag during its push and puts back the value it found",
+    [ed(I, """        self.handle_count.set(1);
+        {
+            // Pin and move""", """        self.handle_count.set(1);
+        let was = THREAD_COLLECTING.with(|c| c.replace(true));
+        {
+            // Pin and move"""),
+     ed(I, """        // Revert the handle count back to zero.
+        self.handle_count.set(0);""", """        THREAD_COLLECTING.with(|c| c.set(was));
+        // Revert the handle count back to zero.
+        self.handle_count.set(0);""")])
+mut("rec-release-handle-clears-thread-flag", "break", ["C07", "C20"], "release_handle clears the thread-wide flag before finalize ('a dying participant is not collecting')",
+    [ed(I, """        if guard_count == 0 && handle_count == 1 {
+            self.finalize();""", """        if guard_count == 0 && handle_count == 1 {
+            THREAD_COLLECTING.with(|c| c.set(false));
+            self.finalize();""")], ["REC-COLLECT-REENTRY"])
 mut("rec-collecting-cleared-in-schedule", "break", ["C07"], "schedule_collection clears the collecting flag",
     [ed(I, """        self.must_collect.set(true);
     }
